@@ -373,6 +373,119 @@ fn violation(kind: &str, message: &str, name: &str, src: &str, case: &Value, ref
     }
 }
 
+// ---------------------------------------------------------------------------------------------
+// Nest sweep: two accumulators updated in sibling / nested bodies of a two-level nest and both
+// observed afterwards (shapes beyond the statement bound of the skeleton sweep).
+
+pub const NEST_OUTER: usize = 4;
+pub const NEST_INNER: usize = 3;
+
+fn nest_atom(code: usize, function: bool) -> Option<Node> {
+    let a = match code {
+        0 => return None,
+        1 => Atom::assign("x", if function { "x + m" } else { "x + in" }),
+        2 => Atom::assign("y", "y + 1"),
+        3 => Atom::assign("y", "x"),
+        _ => Atom::assign("x", "y * 2"),
+    };
+    Some(Node::Atom(a))
+}
+
+/// `atoms` = [before inner, inner then/body, inner else, after inner, outer else].
+pub fn nest_def(outer: usize, inner: usize, cond: usize, atoms: &[usize], function: bool) -> Def {
+    let at = |i: usize| nest_atom(atoms.get(i).copied().unwrap_or(0), function);
+    let body_of = |nodes: Vec<Option<Node>>| -> Body {
+        let mut v: Vec<Node> = nodes.into_iter().flatten().collect();
+        if v.is_empty() {
+            v.push(Node::Atom(Atom::assign("z", "z + 1")));
+        }
+        Body::Braced(v)
+    };
+    let inner_cond = Cond::new(["n > 1", "x > 0"][cond % 2]);
+    let inner_node = match inner % NEST_INNER {
+        0 => Node::If { cond: inner_cond, then: body_of(vec![at(1)]), els: None },
+        1 => Node::If { cond: inner_cond, then: body_of(vec![at(1)]), els: Some(body_of(vec![at(2)])) },
+        _ => Node::For {
+            init: Atom::decl_var_init("j", "0"),
+            cond: Cond::new("j < 2"),
+            step: Atom::new("j++", vec![Ev::Assign("j = j + 1".into())]),
+            body: body_of(vec![at(1)]),
+        },
+    };
+    let mut nest = vec![at(0), Some(inner_node), at(3)];
+    let outer_node = match outer % NEST_OUTER {
+        0 => Node::For {
+            init: Atom::decl_var_init("i", "0"),
+            cond: Cond::new("i < n"),
+            step: Atom::new("i++", vec![Ev::Assign("i = i + 1".into())]),
+            body: body_of(nest),
+        },
+        1 => Node::If { cond: Cond::new("n > 0"), then: body_of(nest), els: None },
+        2 => Node::If { cond: Cond::new("n > 0"), then: body_of(nest), els: Some(body_of(vec![at(4)])) },
+        _ => {
+            nest.push(Some(Node::Atom(Atom::assign("k", "k + 1"))));
+            Node::While { cond: Cond::new("k < n"), body: body_of(nest) }
+        }
+    };
+    let mut body = Vec::new();
+    if !function {
+        body.push(Node::Atom(Atom::new("signal input in", vec![])));
+        body.push(Node::Atom(Atom::new("signal output out", vec![])));
+    }
+    for v in ["x", "y", "z", "k"] {
+        body.push(Node::Atom(Atom::decl_var_init(v, "0")));
+    }
+    body.push(outer_node);
+    if function {
+        body.push(Node::Atom(Atom::ret("x * 16 + y")));
+    } else {
+        body.push(Node::Atom(Atom::new("out <== x + y", vec![Ev::Assign("out <== x + y".into())])));
+    }
+    Def {
+        kind: if function { DefKind::Function } else { DefKind::Template },
+        name: "M".into(),
+        params: vec!["n".into(), "m".into()],
+        body,
+    }
+}
+
+pub fn nest_cases(tier: crate::infra::Tier) -> Vec<Value> {
+    // quick: 4 atoms in 4 positions (nothing before the inner statement); thorough: 5 atoms, 5 positions
+    let (radix, before) = tier.pick((4usize, false), (5usize, true));
+    let mut v = Vec::new();
+    for function in [false, true] {
+        for outer in 0..NEST_OUTER {
+            for inner in 0..NEST_INNER {
+                for cond in 0..(if inner == 2 { 1 } else { 2 }) {
+                    for a0 in 0..(if before { radix } else { 1 }) {
+                        for a1 in 0..radix {
+                            for a2 in 0..(if inner == 1 { radix } else { 1 }) {
+                                for a3 in 0..radix {
+                                    for a4 in 0..(if outer == 2 { radix } else { 1 }) {
+                                        v.push(json!({"kind": "nest", "outer": outer, "inner": inner, "cond": cond, "atoms": [a0, a1, a2, a3, a4], "function": function}));
+                                    }
+                                }
+                            }
+                        }
+                    }
+                }
+            }
+        }
+    }
+    v
+}
+
+fn nest_def_of(case: &Value) -> Def {
+    let atoms: Vec<usize> = case["atoms"].as_array().map(|a| a.iter().map(|v| v.as_u64().unwrap_or(0) as usize).collect()).unwrap_or_default();
+    nest_def(
+        case["outer"].as_u64().unwrap_or(0) as usize,
+        case["inner"].as_u64().unwrap_or(0) as usize,
+        case["cond"].as_u64().unwrap_or(0) as usize,
+        &atoms,
+        case["function"].as_bool().unwrap_or(false),
+    )
+}
+
 pub fn run(run: &Run) {
     let max = run.tier.pick(3, 4);
     let skels = enumerate(opts(max));
@@ -380,7 +493,9 @@ pub fn run(run: &Run) {
         "every skeleton <= {max} statements (braced bodies, for) x every assignment of 11 template atoms {{x=n, x=in, \
          y=x+1, a[0]=x, y=a[1], out<==y, mid<--x, mid===in, assert(x), var b[x], z=y*2}} / 8 function atoms \
          x 2 conditions {{x>0, n>0}}; for every never-read / no-side-effect / unused-parameter finding: \
-         16 (8) valuations x replacement values {{0,1,w+1,p-1}} x {{all instances, instance 0,1,2}}; \
+         plus the nest sweep: {{for, if, if-else, while}} x inner {{if, if-else, for}} x 2 inner conditions x \
+         atoms {{skip, x=x+in|m, y=y+1, y=x, (x=y*2)}} before / in / after the inner statement, x and y both \
+         observed afterwards; 16 (8) valuations x replacement values {{0,1,w+1,p-1}} x {{all instances, instance 0,1,2}}; \
          non-trivial = program with at least one such finding"
     ));
     run.set_extra("skeletons", json!(skels.len()));
@@ -416,6 +531,24 @@ pub fn run(run: &Run) {
             }
         }
     });
+    let nests = nest_cases(run.tier);
+    run.set_extra("nest_programs", json!(nests.len()));
+    par_each(&nests, |i, case| {
+        run.watch(case);
+        let dir = root.join(format!("{:?}", std::thread::current().id()).replace(|c: char| !c.is_ascii_alphanumeric(), ""));
+        let def = nest_def_of(case);
+        let (vs, stats) = check(&def, &dir, case);
+        run.eval(1);
+        if stats.findings > 0 {
+            run.nontrivial(1);
+        }
+        run.add_extra_count("findings_tested", stats.findings as u64);
+        run.add_extra_count("perturbed_runs", stats.perturbed_runs);
+        if i % 211 == 0 {
+            run.outcome(&format!("nest:findings={}", stats.findings.min(5)));
+        }
+        run.violations(vs);
+    });
     let _ = std::fs::remove_dir_all(&root);
     run.assume("effects are exactly those the property lists: values assigned to the template's own input/output signals, both sides of constraints mentioning such a signal, assertion arguments, the return value, array dimensions, branch decisions; a value that only reaches a sub-component port is not an effect");
     run.assume("runs that trap in either execution are discarded");
@@ -426,6 +559,11 @@ pub fn replay(case: &Value) -> Vec<Violation> {
     let get = |k: &str| -> Vec<usize> {
         case[k].as_array().map(|a| a.iter().map(|v| v.as_u64().unwrap_or(0) as usize).collect()).unwrap_or_default()
     };
+    if case["kind"].as_str() == Some("nest") {
+        let out = check(&nest_def_of(case), &root, case).0;
+        let _ = std::fs::remove_dir_all(&root);
+        return out;
+    }
     let max = case["max_stmts"].as_u64().unwrap_or(3) as usize;
     let skels = enumerate(opts(max));
     let out = match skels.get(case["index"].as_u64().unwrap_or(0) as usize) {
